@@ -1022,3 +1022,41 @@ class SymDict:
 
     def __contains__(self, k):
         return self._find(k) is not None
+
+
+# --------------------------------------------------------------------------- oracle
+
+
+class PointOracle:
+    """
+    Solver stub for read-out code: the first solve() 'returns' an arbitrary feasible point
+    of the captured model (its variable values are the model's own z3 variables, so every
+    getValue() on a binary forks the path); a second solve() reports infeasibility.
+    `extra(model)` may add assumptions that bound the explored assignments.
+    """
+
+    def __init__(self, eng, extra=None):
+        self.eng, self.extra = eng, extra
+        self.calls = {}
+
+    def solve(self, model):
+        import aldy.lpinterface as lpi
+
+        n = self.calls.get(id(model), 0) + 1
+        self.calls[id(model)] = n
+        if n > 1:
+            raise lpi.NoSolutionsError("oracle: one point only")
+        self.eng.assume(z3.And(model.z3_constraints()))
+        if self.extra is not None:
+            for c in self.extra(model):
+                self.eng.assume(c)
+        return "optimal", S(model.obj_z3())
+
+    def value(self, model, var):
+        if isinstance(var, Var):
+            if var.kind == "B":
+                return SB(var.zv)
+            return S(var.num())
+        if isinstance(var, L):
+            return S(var.z3())
+        return var
